@@ -3,7 +3,9 @@
 skip_phase, linesep or pragma section).  They are the option values users are told to write, so they are part of the bounded
 universe ("under every configuration").  Blocks whose rule names are placeholders, or that VSG itself rejects on an empty
 file, are dropped.  Option VALUES that appear only in the option tables (|<option>__<value>| substitutions of docs/configuring_*.rst)
-are harvested too: one configuration per (page, option, value), setting the option on every rule the page lists."""
+are harvested too: one configuration per (page, option, value), setting the option on every rule the page lists; so are the
+values the rule pages name in a heading ("parenthesis set to 'remove'") and the values the rules' own code compares an option with
+(doc:code:...), which covers options that no page tabulates."""
 import glob
 import os
 import re
@@ -42,9 +44,10 @@ def harvest(repo):
             elif page_severity is not None and "severity" not in d and _accepted(dict(d, severity=page_severity)):
                 # a fragment that uses the severities an earlier block of the same page defines: the two together are the configuration
                 out[name] = dict(d, severity=page_severity)
-    for name, d in _option_values(repo).items():
-        if _accepted(d):
-            out[name] = d
+    for src in (_option_values, _code_option_values, _rule_page_values):
+        for name, d in src(repo).items():
+            if _accepted(d):
+                out[name] = d
     _CACHE[repo] = out
     return out
 
@@ -124,4 +127,91 @@ def _option_values(repo):
                 continue
             # a number where the rule keeps a string (standard: 2008) is written as the string the documentation quotes
             out["doc:values:%s:%s=%s" % (page, opt, val)] = {"rule": {r: {opt: (val if isinstance(default[(r, opt)], str) and not isinstance(v, (str, bool)) else v)} for r in sorted(rules)}}
+    return out
+
+
+def _code_option_values(repo):
+    """option values the CODE distinguishes: for every string-valued option of a rule, the string literals the rule's classes
+    compare `self.<option>` with (directly, or inside a function of the same module that is handed `self.<option>`).  One
+    configuration per (option, value): the value on every rule whose code mentions it and whose default differs."""
+    import ast
+    import contextlib
+    import inspect
+    import io
+
+    from vsg import rule_list, vhdlFile
+
+    with contextlib.redirect_stdout(io.StringIO()), contextlib.redirect_stderr(io.StringIO()):
+        oRules = rule_list.rule_list(vhdlFile.vhdlFile([""]), None)
+    base = {"indent_style", "indent_size", "phase", "disable", "fixable", "severity", "user_error_message"}
+    mod_cache = {}
+
+    def literals(modname, opt):
+        key = (modname, opt)
+        if key in mod_cache:
+            return mod_cache[key]
+        out = set()
+        try:
+            import importlib
+
+            tree = ast.parse(inspect.getsource(importlib.import_module(modname)))
+        except Exception:
+            mod_cache[key] = out
+            return out
+
+        def is_self_opt(n):
+            return isinstance(n, ast.Attribute) and n.attr == opt and isinstance(n.value, ast.Name) and n.value.id == "self"
+
+        def cmp_literals(body, match):
+            for n in ast.walk(body):
+                if isinstance(n, ast.Compare) and len(n.ops) == 1 and isinstance(n.ops[0], (ast.Eq, ast.NotEq, ast.In, ast.NotIn)):
+                    sides = [n.left, n.comparators[0]]
+                    for a, b in (sides, sides[::-1]):
+                        if match(a):
+                            if isinstance(b, ast.Constant) and isinstance(b.value, str):
+                                out.add(b.value)
+                            elif isinstance(b, (ast.List, ast.Tuple)):
+                                out.update(e.value for e in b.elts if isinstance(e, ast.Constant) and isinstance(e.value, str))
+
+        cmp_literals(tree, is_self_opt)
+        funcs = {n.name: n for n in ast.walk(tree) if isinstance(n, ast.FunctionDef)}
+        for n in ast.walk(tree):
+            if isinstance(n, ast.Call) and isinstance(n.func, ast.Name) and n.func.id in funcs:
+                for i, a in enumerate(n.args):
+                    if is_self_opt(a) and i < len(funcs[n.func.id].args.args):
+                        pname = funcs[n.func.id].args.args[i].arg
+                        cmp_literals(funcs[n.func.id], lambda x, pname=pname: isinstance(x, ast.Name) and x.id == pname)
+        mod_cache[key] = out
+        return out
+
+    by = {}
+    for oRule in oRules.rules:
+        if oRule.deprecated:
+            continue
+        for opt in oRule.configuration:
+            cur = getattr(oRule, opt, None)
+            if opt in base or not isinstance(cur, str):
+                continue
+            vals = set()
+            for c in type(oRule).__mro__:
+                if c.__module__.startswith("vsg."):
+                    vals |= literals(c.__module__, opt)
+            for v in sorted(vals):
+                if v != cur and v != "":
+                    by.setdefault((opt, v), {})[oRule.unique_id] = {opt: v}
+    return {"doc:code:%s=%s" % k: {"rule": v} for k, v in sorted(by.items())}
+
+
+def _rule_page_values(repo):
+    """option values named in the rule pages (docs/*_rules.rst): a heading "<option> set to '<value>'" inside the section of a rule"""
+    out = {}
+    for f in sorted(glob.glob(os.path.join(repo, "docs", "*_rules.rst"))):
+        rid = None
+        lines = open(f, encoding="utf-8").read().split("\n")
+        for i, l in enumerate(lines):
+            if re.match(r"^[a-z_]+_\d{3}$", l) and i + 1 < len(lines) and set(lines[i + 1]) == {"#"}:
+                rid = l
+            m = re.match(r"^(\w+) set to '([^']+)'", l)
+            if m and rid and "(Default)" not in l:
+                out["doc:rulepage:%s:%s=%s" % (rid, m.group(1), m.group(2))] = {"rule": {rid: {m.group(1): m.group(2)}}}
     return out
